@@ -214,14 +214,24 @@ pub fn run(w: Arc<World>, seed: u64, rng: &mut Rng, schedules: Vec<Value>, n: us
         let _ = std::fs::remove_file(&path);
         let mut store = if *file { Store::persistent(&path).unwrap() } else { Store::memory() };
         // initial store: both documents exist with write capability, authors 1..2 imported
+        // initial capabilities: mostly both writable; sometimes document 2 is read-only or absent
+        let caps: Vec<&str> = match i % 4 {
+            2 => vec!["write", "read"],
+            3 => vec!["write", "none"],
+            _ => vec!["write", "write"],
+        };
         for d in 1..=NDOCS {
-            store.import_namespace(Capability::Write(doc_secret(&w, d).clone())).unwrap();
+            match caps[d - 1] {
+                "write" => { store.import_namespace(Capability::Write(doc_secret(&w, d).clone())).unwrap(); }
+                "read" => { store.import_namespace(Capability::Read(doc_secret(&w, d).id())).unwrap(); }
+                _ => {}
+            }
         }
         for a in 1..=2 {
             store.import_author(w.author(a).clone()).unwrap();
         }
         let handle = SyncHandle::spawn(store, None, format!("vdrive-{i}"));
-        trace.emit(json!({"ev":"Reset","run":i,"seed":seed,"ops":batches,"backend": if *file {"file"} else {"mem"}}));
+        trace.emit(json!({"ev":"Reset","run":i,"seed":seed,"ops":batches,"backend": if *file {"file"} else {"mem"},"caps":caps}));
         sum.add("histories", 1);
         let mut subs = SubTable { all: vec![] };
         let mut pick = Rng::new(seed ^ (i as u64) ^ 0x55);
